@@ -66,6 +66,8 @@ structure World where
   fwd : List (Lid × Lid) := []            -- proxy ↦ overlay it hands packets to (`tunnel_community`)
   fwdAdd : Bool := true                   -- TunnelEndpoint forwards add_listener / add_prefix_listener
   fwdRemove : Bool := true                -- TunnelEndpoint forwards remove_listener
+  tunnelRef : Option Lid := none          -- `TunnelEndpoint.tunnel_community`: who carries the anonymised sends of others
+  anon : List Lid := []                   -- listeners with `anonymize = True`
 deriving Repr
 
 inductive ROp
@@ -75,6 +77,8 @@ inductive ROp
   | setFwd (proxy target : Lid)
   | clearFwd (proxy : Lid)
   | setOpen (b : Bool)
+  | setRef (r : Option Lid)               -- `TunnelEndpoint.set_tunnel_community`
+  | setAnon (l : Lid) (b : Bool)
 deriving Repr, DecidableEq
 
 def World.step (w : World) : ROp → World
@@ -89,6 +93,8 @@ def World.step (w : World) : ROp → World
   | .setFwd a b => { w with fwd := (a, b) :: w.fwd.filter (fun e => e.1 != a) }
   | .clearFwd a => { w with fwd := w.fwd.filter (fun e => e.1 != a) }
   | .setOpen b => { w with inner := { w.inner with isOpen := b } }
+  | .setRef r => { w with tunnelRef := r }
+  | .setAnon l b => { w with anon := if b then l :: w.anon.filter (fun x => x != l) else w.anon.filter (fun x => x != l) }
 
 def World.run (w : World) (ops : List ROp) : World := ops.foldl World.step w
 
@@ -97,6 +103,17 @@ def World.run (w : World) (ops : List ROp) : World := ops.foldl World.step w
 def World.reach (w : World) (p : Pfx) : List Lid :=
   let ds := w.inner.recipients p
   ds ++ ds.filterMap (fun l => lookupF w.fwd l)
+
+/-- `TunnelEndpoint.notify_listeners(packet, from_tunnel)`: iterates the GENERIC listeners of the wrapped endpoint (not the
+    prefix map), skips those whose `anonymize` flag differs from `from_tunnel` -/
+def World.reachTunnel (w : World) (fromTunnel : Bool) : List Lid :=
+  let ds := if w.inner.isOpen then w.inner.listeners.filter (fun l => w.anon.contains l == fromTunnel) else []
+  ds ++ ds.filterMap (fun l => lookupF w.fwd l)
+
+/-- everybody who can be made to run: by a datagram of prefix `p` from the socket, by a datagram delivered from a tunnel,
+    or by another overlay's anonymised send (`TunnelEndpoint.send` calls into `tunnel_community`) -/
+def World.touched (w : World) (p : Pfx) : List Lid :=
+  w.reach p ++ w.reachTunnel true ++ w.reachTunnel false ++ w.tunnelRef.toList
 
 /-! ## 2. Task manager -/
 
@@ -148,6 +165,7 @@ structure TM where
   map : List (Nat × Nat) := []             -- `_pending_tasks`: name ↦ task id
   conts : List Cont := []
   log : List Ev := []                      -- newest first
+  awaiting : List Nat := []                -- tasks `shutdown_task_manager` gathers (tracked and unfinished when it was called)
 deriving Repr
 
 inductive RegResult
@@ -211,12 +229,26 @@ def TM.replace (tm : TM) (name : Nat) (s : Spec) : TM :=
 
 def inMap (m : List (Nat × Nat)) (id : Nat) : Bool := m.any (fun e => e.2 == id)
 
-/-- `shutdown_task_manager` up to its first await: set the flag, cancel everything that is tracked -/
+def cancelIfTracked (m : List (Nat × Nat)) (t : Task) : Task :=
+  if inMap m t.id && !t.done then
+    (if t.kind = .fut then { t with cancelReq := true, done := true } else { t with cancelReq := true })
+  else t
+
+def cancelIfTrackedEv (m : List (Nat × Nat)) (t : Task) : List Ev :=
+  if inMap m t.id && !t.done && t.kind = .fut then [Ev.fin t.id] else []
+
+/-- `shutdown_task_manager` up to its first await: set the flag, cancel everything that is tracked (a plain Future
+    completes at once), remember whom to wait for -/
 def TM.shutdownOp (tm : TM) : TM :=
   if tm.shutdown then tm
   else { tm with shutdown := true,
-                 tasks := tm.tasks.map (fun t => if inMap tm.map t.id && !t.done then { t with cancelReq := true } else t),
+                 tasks := tm.tasks.map (cancelIfTracked tm.map),
+                 awaiting := (tm.tasks.filter (fun t => inMap tm.map t.id && !t.done)).map (fun t => t.id),
+                 log := (tm.tasks.flatMap (cancelIfTrackedEv tm.map)).reverse ++ tm.log,
                  map := [] }
+
+/-- `await shutdown_task_manager()` has returned: the flag is set and every gathered task has finished -/
+def TM.shutdownReturned (tm : TM) : Bool := tm.shutdown && tm.awaiting.all (fun id => taskDone tm.tasks id)
 
 /-- one loop pass for one task: deliver a requested cancellation, run bodies and timers that are ready -/
 def deliver (now : Nat) (t : Task) : Task :=
@@ -316,6 +348,7 @@ inductive UOp
   | closeDb
   | closeExitSockets                                         -- `for s in list(self.exit_sockets.values()): await s.close()`
   | clearTable (k : RemKind)                                 -- `self.<table>.clear()`
+  | clearEndpointRef                                         -- `if self.endpoint.tunnel_community is self: …set_tunnel_community(None)`
 deriving Repr, DecidableEq
 
 structure ClassInfo where
@@ -341,6 +374,7 @@ structure UState where
   relays : Nat := 0
   exits : Nat := 0                -- entries of exit_sockets
   openExit : Nat := 0             -- exit sockets whose transports / task manager are still alive
+  pc : Nat := 0                   -- index of the next script statement (the adversary's clock)
 deriving Repr
 
 def UState.clear (s : UState) : RemKind → UState
@@ -360,7 +394,7 @@ def UState.finishRemoval (s : UState) : RemKind → UState
   | .remExit => { s with exits := 0, openExit := 0 }
 
 /-- `sleeps k removeNow` is the generated guard of the `await sleep(remove_tunnel_delay)` in `remove_<k>` -/
-def UState.step (sleeps : RemKind → Bool → Bool) (s : UState) : UOp → UState
+def UState.core (sleeps : RemKind → Bool → Bool) (s : UState) : UOp → UState
   | .spawnRemovals k now _ =>
       if s.tmDown || s.count k = 0 then s else { s with removals := s.removals ++ [(k, sleeps k now)] }
   | .awaitRemovals => s.removals.foldl (fun acc r => acc.finishRemoval r.1) { s with removals := [] }
@@ -373,15 +407,38 @@ def UState.step (sleeps : RemKind → Bool → Bool) (s : UState) : UOp → USta
   | .closeDb => { s with dbClosed := true }
   | .closeExitSockets => { s with openExit := 0 }
   | .clearTable k => s.clear k
+  | .clearEndpointRef => if s.w.tunnelRef = some s.self then { s with w := s.w.step (.setRef none) } else s
 
-def UState.run (sleeps : RemKind → Bool → Bool) (s : UState) (script : List UOp) : UState :=
-  script.foldl (UState.step sleeps) s
+/-- statements that suspend `unload` while handlers / tasks of the overlay can still run (`tmShutdown` cancels everything
+    before it suspends, so it is not one of them) -/
+def UOp.awaits : UOp → Bool
+  | .cacheShutdown => true
+  | .awaitRemovals => true
+  | .closeExitSockets => true
+  | _ => false
+
+/-- One statement of `unload`.  While the statement is suspended and the task manager is still up, in-flight handlers
+    (a CREATE that arrived just before, …) may open `acq pc` further exit sockets — after the statement's own effect. -/
+def UState.step (sleeps : RemKind → Bool → Bool) (acq : Nat → Nat) (s : UState) (op : UOp) : UState :=
+  let s1 := s.core sleeps op
+  if op.awaits && !s1.tmDown then
+    { s1 with pc := s.pc + 1, openExit := s1.openExit + acq s.pc, exits := s1.exits + acq s.pc }
+  else { s1 with pc := s.pc + 1 }
+
+def UState.run (sleeps : RemKind → Bool → Bool) (acq : Nat → Nat) (s : UState) (script : List UOp) : UState :=
+  script.foldl (UState.step sleeps acq) s
+
+/-- the statements after the (first) task-manager shutdown -/
+def afterTm : List UOp → List UOp
+  | [] => []
+  | op :: rest => if op = .tmShutdown then rest else afterTm rest
 
 /-- what the constructor chain of a class leaves in the registry (cf. Overlay/Community/TunnelCommunity.__init__ and
     PythonCryptoEndpoint.setup_tunnels) -/
 def loadOps (c : ClassInfo) (viaOuter : Bool) (self proxy : Lid) (pfx : Pfx) : List ROp :=
   [.add viaOuter self, .remove viaOuter self, .addPrefix viaOuter self pfx] ++
-  (if c.installsProxy then [.remove viaOuter self, .remove viaOuter proxy, .addPrefix viaOuter proxy pfx, .setFwd proxy self] else [])
+  (if c.installsProxy then [.remove viaOuter self, .remove viaOuter proxy, .addPrefix viaOuter proxy pfx, .setFwd proxy self] ++
+      (if viaOuter then [.setRef (some self)] else []) else [])
 
 /-! ## 4. The service: overlays and the discovery strategies the ticker drives (`ipv8_service.IPv8`) -/
 
